@@ -150,6 +150,20 @@ def closure_of_call(body, t):
     return out
 
 
+def callable_arg(facts, body, t, i):
+    """The body of the closure literal or crate fn item passed as argument i of call t, with the local
+    number of its first parameter: (Body, 2) for a closure (local 1 is the environment), (Body, 1) for
+    a function.  None if the argument is neither."""
+    e = body.operand_expr(t["args"][i], True)
+    if e[0] == "closure":
+        return facts.closure_body(e[1]), 2
+    if e[0] == "fn":
+        c = facts.by_path.get(e[1]) or facts.by_spath.get(strip_generics(e[1]), [])
+        if len(c) == 1:
+            return c[0], 1
+    return None
+
+
 def dominates_all_paths(body, guard_blocks, target_bi):
     """Every path entry -> target passes through one of guard_blocks."""
     seen = set()
